@@ -95,6 +95,28 @@ func Corrupt(c *simkit.Choices, doc *model.Doc, n int, st *simkit.Stats) ([]byte
 			faults = append(faults, f)
 			continue
 		}
+		if doc.Format == string(model.JSON) && c.N(10) == 0 {
+			// a trailing comma right before a closing bracket or brace (the
+			// most widespread leniency of all), with optional white space
+			var closers []int
+			for _, t := range doc.Tokens {
+				if t.Kind == "punct" && t.S < len(b) && (b[t.S] == '}' || b[t.S] == ']') {
+					closers = append(closers, t.S)
+				}
+			}
+			if len(closers) > 0 {
+				at := closers[c.N(len(closers))]
+				ins := [][]byte{{','}, {',', ' '}, {' ', ','}, {',', '\n'}}[c.N(4)]
+				nb := append([]byte{}, b[:at]...)
+				nb = append(nb, ins...)
+				nb = append(nb, b[at:]...)
+				b = nb
+				f.Kind, f.Pos = "json-trailing-comma", at
+				st.Fault("corrupt-" + f.Kind)
+				faults = append(faults, f)
+				continue
+			}
+		}
 		if doc.Format == string(model.JSON) && c.N(6) == 0 {
 			// a byte that some whitespace tests accept and others do not
 			// (Latin-1 NEL / NBSP, VT, FF, the separators 0x1c-0x1f), placed
